@@ -629,8 +629,8 @@ func c02Exec(c *vf.Ctx, d *vf.Driver, cs c02Case) {
 		if cs.Form == "jwt" {
 			var m map[string]any
 			DecodeJSONMapErr(payload, &m)
-			if !out.Claims.Equal(vf.FromJSON(m)) {
-				fail("property", class, "claims differ after the round trip: "+cell, out.Claims.Render(), vf.FromJSON(m).Render())
+			if rawW, _ := out.Claims.Get("raw"); !rawW.Equal(vf.FromJSON(m)) {
+				fail("property", class, "claims differ after the round trip: "+cell, rawW.Render(), vf.FromJSON(m).Render())
 			}
 		} else if !bytes.Equal(out.Payload, payload) {
 			fail("property", class, "payload differs after the round trip: "+cell, fmt.Sprintf("%x", out.Payload), fmt.Sprintf("%x", payload))
@@ -1049,6 +1049,8 @@ func runC02(c *vf.Ctx) {
 	})
 	// key-object histories (one sig.SigningKey object reused across calls)
 	c01RunHist(c, "C02", func(int) bool { return true })
+	// member-name spelling: unregistered members whose names resemble registered ones
+	c02RunSpell(c)
 	// JWT time claims: sequential (the parser clock is process-global)
 	if d, err := vf.StartDriver(); err == nil {
 		tcs := c02TimeCases(c)
@@ -1073,9 +1075,15 @@ func replayC02(c *vf.Ctx, data json.RawMessage) {
 		Kind   string `json:"kind"`
 		Time   string `json:"time_case"`
 		Hist   string `json:"hist"`
+		Spell  string `json:"spell"`
 	}
 	json.Unmarshal(data, &probe)
 	switch {
+	case probe.Spell != "":
+		var sc c02SpellCase
+		if json.Unmarshal(data, &sc) == nil {
+			c02ReplaySpell(c, d, sc)
+		}
 	case probe.Hist != "":
 		var hc c01HistCase
 		if json.Unmarshal(data, &hc) == nil {
